@@ -15,7 +15,9 @@ import (
 	"math/rand/v2"
 	"net"
 	"net/netip"
+	"os"
 	"strings"
+	"time"
 
 	"github.com/miekg/dns"
 
@@ -538,7 +540,7 @@ func judgeProbe(r *vlib.Run, pc pipeCase, admitted bool, o obs, qtype uint16) {
 
 // runACLCase drives one access list (and, when it holds unparsable entries
 // next to parsable ones, the same list without them) through every path.
-func runACLCase(r *vlib.Run, ci int, acl []string, kind string, sources []srcSpec, rng *rand.Rand, only *pipeCase) {
+func runACLCase(r *vlib.Run, ci int, acl []string, kind string, sources []srcSpec) {
 	good, bad := parseGood(acl)
 	type decision struct{ wrote bool }
 	decide := func(list []string, twin bool) map[string]decision {
@@ -553,18 +555,12 @@ func runACLCase(r *vlib.Run, ci int, acl []string, kind string, sources []srcSpe
 		for si, src := range sources {
 			admitted := refAdmits(list, src.Addr)
 			for _, path := range inprocPaths {
-				if only != nil && (only.Path != path || only.Source != src.Addr.String() || only.Port != src.Port || only.Form16 != src.Form16) {
-					continue
-				}
 				seq++
 				prng := rand.New(rand.NewPCG(uint64(ci)<<20|uint64(seq), 0xc17))
 				qname := fmt.Sprintf("p%d-%d.acl.c17.test.", ci, seq)
 				isWarm := false
 				if !admitted && len(warm) > 0 && prng.IntN(2) == 0 {
 					qname, isWarm = warm[prng.IntN(len(warm))], true
-				}
-				if only != nil && only.QName != "" && !only.Warm {
-					qname = only.QName
 				}
 				q := buildQuery(prng, qname, dns.TypeA)
 				o := serveInproc(st, src, path, q)
@@ -587,9 +583,6 @@ func runACLCase(r *vlib.Run, ci int, acl []string, kind string, sources []srcSpe
 	d1 := decide(acl, false)
 	r.Count("pipe_lists", 1)
 	r.Count("pipe_lists_"+kind, 1)
-	if only != nil {
-		return
-	}
 	if d1 != nil && bad > 0 && len(good) > 0 {
 		// an unparsable entry never changes a decision: the same list without
 		// the unparsable entries (still non-empty) must decide every probe alike
@@ -634,7 +627,7 @@ func runPipelineInproc(r *vlib.Run) {
 		rng := r.RandN("pipe", ci)
 		acl, kind := genACL(rng)
 		sources := genSources(rng, [][]string{acl}, r.N(36, 60))
-		runACLCase(r, ci, acl, kind, sources, rng, nil)
+		runACLCase(r, ci, acl, kind, sources)
 		r.Progress("pipeline in-process %d/%d", ci+1, n)
 	}
 }
@@ -648,10 +641,24 @@ func runPipeline(r *vlib.Run) {
 		replayPipeline(r, rc)
 		return
 	}
-	runPipelineInproc(r)
-	runSockets(r)
-	runViews(r)
-	runInternal(r)
+	r.Count("contract_breaches", 0)
+	// VERIF_C17_ONLY=pipeline,sockets,views,internal restricts the run to some
+	// parts (debugging aid; the skipped parts' Require minimums then make the
+	// run inconclusive unless a violation is found)
+	only := os.Getenv("VERIF_C17_ONLY")
+	want := func(p string) bool { return only == "" || strings.Contains(only, p) }
+	timed := func(name string, f func(*vlib.Run)) {
+		if !want(name) {
+			return
+		}
+		t0 := time.Now()
+		f(r)
+		r.Note("wall_s_"+name, float64(int(time.Since(t0).Seconds()*10))/10)
+	}
+	timed("pipeline", runPipelineInproc)
+	timed("sockets", runSockets)
+	timed("views", runViews)
+	timed("internal", runInternal)
 
 	r.Require("pipe_probes_admitted", 2000)
 	r.Require("pipe_probes_denied", 2000)
